@@ -476,6 +476,8 @@ func c25(c *report.Check) {
 	w := c25NewWorld()
 	defer w.close()
 	defer quietStderr()() // chi's Recoverer prints a stack trace per recovered panic (malformed subject ids)
+	sink := newViolSink(c)
+	defer sink.flush()
 	dist := report.NewDistinct(8)
 	evals, refusedN, controlOK := 0, 0, 0
 	codes := map[string]int{}
@@ -503,7 +505,7 @@ func c25(c *report.Check) {
 					if i := strings.Index(sig, ":"); i > 0 {
 						sig = sig[:i]
 					}
-					c.Violation(fmt.Sprintf("c25:%s:%s:%s:%s", caller.Name, cs.Method, body, sig), fmt.Sprintf("caller=%s method=%s body=%s: %s (status=%d code=%s msg=%q diff=%v)", caller.Name, cs.Method, body, p, o.Status, o.Code, o.Msg, o.SnapDiff), cs)
+					sink.add(fmt.Sprintf("c25:%s:%s:%s:%s", caller.Name, cs.Method, body, sig), fmt.Sprintf("caller=%s method=%s body=%s: %s (status=%d code=%s msg=%q diff=%v)", caller.Name, cs.Method, body, p, o.Status, o.Code, o.Msg, o.SnapDiff), cs)
 				}
 				switch {
 				case c25Exempt(m):
